@@ -11,7 +11,7 @@ class Agreement(PipelineBase):
     name='C07.threshold_agreement'
     def __init__(self,nlinks=2,**kw):
         PipelineBase.__init__(self,**kw); self.nlinks=nlinks
-        self.bounds={'links':nlinks,'threshold':'any u32','materials':'per link any subset of {a,b}, one free digest byte per entry','products':'per link any subset of {p}, free digest byte',
+        self.bounds={'links':nlinks,'threshold':'any u32','materials':'per link any subset of {a,b}, one free digest byte per entry','products':'per link any subset of {p,a} (a is also a material path), free digest byte per entry',
                      'signature_validity':'link 0 valid; other links free (intact/over/made_by)','hash_map_iteration':'every permutation'}
         self.witnesses=['ok_thr2_agree','err_disagree','ok_thr1_disagree']
     def mk_args(self,run):
@@ -23,7 +23,9 @@ class Agreement(PipelineBase):
             for p in ('a','b'):
                 if run.pick(2,'m%d%s'%(i,p)): mats[p]=[z3.BitVec('dm_%d_%s'%(i,p),8)]
             prods={}
-            if run.pick(2,'p%d'%i): prods['p']=[z3.BitVec('dp_%d'%i,8)]
+            # `a` may be both a material and a product (a file modified in place): the two tables are compared separately
+            for p in ('p','a'):
+                if run.pick(2,'p%d%s'%(i,p)): prods[p]=[z3.BitVec('dp_%d_%s'%(i,p),8)]
             if i==0: sd=SigD(i,i)
             else:
                 mb=z3.BitVec('mb_%d'%i,8); run.add(z3.ULE(mb,n))
